@@ -155,33 +155,47 @@ def run(ctx):
         nones = [p for p in ps if p.status == 'return' and is_agg(p.ret, None, 'None')]
         good = bool(items) and bool(nones)
         why = []
+        ends = set()
         for p in items:
             tup = agg_field(p.ret, '0')
             if not is_agg(tup, 'tuple'):
                 good = False
                 continue
             start, end = agg_field(tup, '0'), agg_field(tup, '1')
-            ss, es = absint.term_str(start), absint.term_str(end)
-            idxs = [e for e in p.eff if e[0] == 'store' and e[1][0] == SELF]
-            if 'parts_indices' not in ss or 'current_part_index' not in ss:
-                good = False
-                why.append("start = %s" % ss)
-            has_next = any(t[0] == 'discr' and t[1][0] in ('get', 'copied') or 'get(' in absint.term_str(t) for t, v in p.cons)
-            if not (('Add(' in es and 'current_part_index' in es and ', 1)' in es) or es.endswith('num_points')):
-                good = False
-                why.append("end = %s" % es)
-            if len(idxs) != 1 or idxs[0][2] != ('bin', 'Add', ('load', idxs[0][1]), ('int', 1), 'usize'):
+            stores = [e for e in p.eff if e[0] == 'store' and e[1][0] == SELF]
+            # the cursor: the one field of the iterator that is stored, with its old value + 1
+            if len(stores) != 1 or stores[0][2] != ('bin', 'Add', ('load', stores[0][1]), ('int', 1), 'usize'):
                 good = False
                 why.append("cursor not advanced by exactly one")
-            guard = [(t, v) for t, v in p.cons if t[0] == 'bin' and t[1] == 'Lt' and 'current_part_index' in absint.term_str(t[2]) and t[3][0] == 'len']
-            if not guard:
+                continue
+            cur = ('load', stores[0][1])
+            # start = offsets[cursor]
+            sidx = index_of(start)
+            if sidx is None or sidx[1] != cur:
+                good = False
+                why.append("start = %s" % absint.term_str(start))
+                continue
+            coll = sidx[0]
+            # end = offsets[cursor + 1], or a field of the iterator (the total) when there is no next offset
+            eidx = index_of(end)
+            nxt = ('bin', 'Add', cur, ('int', 1), 'usize')
+            if eidx is not None and affine.canon_coll(eidx[0]) == affine.canon_coll(coll) and eidx[1] == nxt:
+                ends.add('next offset')
+            elif end[0] == 'load' and end[1][0] == SELF and end != cur:
+                ends.add('total')
+            elif end[0] == 'unwrap_or' and absint.contains(end, nxt) and end[2][0] == 'load' and end[2][1][0] == SELF:
+                ends.add('next offset')
+                ends.add('total')
+            else:
+                good = False
+                why.append("end = %s" % absint.term_str(end))
+            # an item is produced only while the cursor is inside the offsets array
+            inside = any((t[0] == 'bin' and t[1] == 'Lt' and t[2] == cur and t[3][0] == 'len' and (v != 0 if isinstance(v, int) else True)) or
+                         (t[0] == 'discr' and t[1][0] == 'get' and t[1][2] == cur and v == 1) for t, v in p.cons)
+            if not inside:
                 good = False
                 why.append("item returned without cursor < len(offsets)")
-        ends = set()
-        for p in items:
-            es = absint.term_str(agg_field(agg_field(p.ret, '0'), '1'))
-            ends.add('num_points' if es.endswith('num_points') else 'next offset')
-        if ends != {'num_points', 'next offset'}:
+        if ends != {'total', 'next offset'}:
             good = False
             why.append("end of a part is %s" % sorted(ends))
         for p in nones:
@@ -401,6 +415,21 @@ def run(ctx):
                site=ctx.site_of(F, fr["def"]) if fr else None, key="C01.patch|%s" % kname)
     ctx.ob("C01.patch", "patch i with part i", bool(zip_ok), "kinds and point lists are zipped in reading order and each patch takes its own element",
            site=ctx.site_of(F, fr["def"]) if fr else None, key="C01.patch|zip")
+
+
+def index_of(t):
+    """(collection term, index term) when t is the value of an indexed element: coll[idx] / *get(coll, idx)"""
+    if t[0] == 'load':
+        root, proj = t[1]
+        if proj and proj[-1][0] == 'i':
+            return ('load', (root, proj[:-1])), proj[-1][1]
+        if root[0] == 'T' and not proj and root[1][0] == 'elemref_at':
+            return root[1][1], root[1][2]
+    if t[0] == 'deref' and t[1][0] == 'elemref_at':
+        return t[1][1], t[1][2]
+    if t[0] == 'proj' and t[2] and t[2][-1][0] == 'i':
+        return ('proj', t[1], t[2][:-1]), t[2][-1][1]
+    return None
 
 
 def flatten(l):
